@@ -589,7 +589,7 @@ pub fn compile(dir: &Path, main_cpp: &str, exe: Option<&str>, compiler: &str) ->
             cmd.arg("-fsyntax-only");
         }
         Some(e) => {
-            cmd.args(SANITIZE).arg("-o").arg(e);
+            cmd.args(SANITIZE).arg("-ftrivial-auto-var-init=pattern").arg("-o").arg(e);
         }
     }
     cmd.arg(main_cpp);
